@@ -41,10 +41,10 @@ def fcount : {n : Nat} → (Fin n → Bool) → Nat
 @[noinline] def arrGet {β : Type} {n : Nat} (a : Array β) (h : a.size = n) : Fin n → β :=
   fun i => a[i.val]'(by omega)
 
-def memoV {β : Type} {n : Nat} (v : Fin n → β) : Fin n → β :=
+@[inline] def memoV {β : Type} {n : Nat} (v : Fin n → β) : Fin n → β :=
   arrGet (Array.ofFn v) (by simp)
 
-def memoM {β : Type} {m n : Nat} (A : Fin m → Fin n → β) : Fin m → Fin n → β :=
+@[inline] def memoM {β : Type} {m n : Nat} (A : Fin m → Fin n → β) : Fin m → Fin n → β :=
   memoV (fun i => memoV (A i))
 
 /-! ### dense algebra -/
